@@ -313,6 +313,8 @@ def call(objs, st, tmp):
         kw = {}
         for s in a['sels']:
             kw[s['d']] = py_sel(s['s'])
+        if a.get('alias'):      # the short method name
+            return f.slice(newdims=(a['newdim'],), **kw)
         return f.sliceDimensions(newdims=(a['newdim'],), **kw)
     if act == 'apply' and a.get('via') == 'reduce_dim':
         # string form 'dim,function' of the command line tools
@@ -333,6 +335,8 @@ def call(objs, st, tmp):
         for fn in a['funcs']:
             kw[fn['d']] = fn['f'] if fn['kind'] == 'reducer' \
                 else CALLABLES[fn['f']]
+        if a.get('alias'):
+            return f.apply(**kw)
         return f.applyAlongDimensions(**kw)
     if act == 'reopen':
         # the file written to disk and opened again: a disk-backed object
@@ -370,6 +374,8 @@ def call(objs, st, tmp):
             return f.stack(others, a['dim'])
         return f.stack(others[0], a['dim'])
     if act == 'subset':
+        if a.get('alias'):
+            return f.subset(list(a['keys']), exclude=a['exclude'])
         return f.subsetVariables(list(a['keys']), exclude=a['exclude'])
     if act == 'renamevar':
         return f.renameVariable(a['old'], a['new'])
@@ -585,7 +591,12 @@ def gen_step(rnd, sh, src, shadows, focus=None, strict=False):
     """A random step; degenerate structures (no variable / dimension left)
     fall back to a plain copy."""
     try:
-        return _gen_step(rnd, sh, src, shadows, focus, strict)
+        st = _gen_step(rnd, sh, src, shadows, focus, strict)
+        # the short method names slice / apply / subset are entry points too
+        if st['act'] in ('slice', 'apply', 'subset') and \
+                'via' not in st.get('args', {}) and rnd.random() < 0.3:
+            st['args']['alias'] = True
+        return st
     except (IndexError, ValueError, KeyError):
         return {'act': 'copy', 'src': src, 'others': [], 'args': {}}
 
